@@ -289,6 +289,7 @@ PROPS["C16"] = {
         ("R-NAME-ROUTING", rm.rule_name_routing, {}),
         ("R-DERIV-KEY", rm.rule_deriv_key, {}),
         ("R-COLUMN-ORDER", rm.rule_column_order, {}),
+        ("R-DECLARED-ORDER", rm.rule_declared_order, {}),
     ],
     "explanation": "Index typing of the routing: in each of the 10 arity dispatch impls argument slot i receives clone(params[i]) with ARGUMENT_COUNT = N under the length guard; the index mapping is the position of the f-th function parameter in the model list in declaration order and the wrapper pushes params[mapping[f]] in that order (same wrapper for functions and derivatives); "
                    "the derivative map key is the enumerate index over the model parameter list (not taken after a filter) and eval_partial_deriv looks up the requested index in a zero-initialised matrix; eval zips the function list with the columns in insertion order and the list is only ever pushed to; set_params stores the vector unchanged.",
